@@ -25,7 +25,7 @@ Fixpoint schain (lb lbb : N) (segs : list seg) (lb' lbb' : N) : Prop :=
   end.
 Definition kept1 (c : N * N * answer) : Prop := carry_kept (fst (fst c)) (snd (fst c)) (snd c).
 Definition kept (segs : list seg) : Prop := Forall kept1 (ans_of segs).
-Definition tclean (a : answer) : Prop := a_lb a < 2 ^ a_lbb a /\ (a_is_last a = true -> a_lbb a = 0).
+Definition tclean (a : answer) : Prop := cleanv (a_lb a) (a_lbb a) /\ (a_is_last a = true -> a_lbb a = 0).
 Definition notlast (a : answer) : Prop := a_is_last a = false.
 
 Lemma ans_of_app a b : ans_of (a ++ b) = ans_of a ++ ans_of b.
@@ -120,7 +120,7 @@ Proof.
       destruct (outcome_inv_padding s s1 Ep) as [_ [Hip [_ [Ho _]]]].
       assert (Hl16 : last_bytes_bits s < 16) by (destruct Hi as [_ [_ [_ H]]]; exact H).
       assert (Hcl1 : clean s1).
-      { destruct (padding_wire [] s s1 Hi Hfl Hlb Hcl Ep) as (_ & L1 & L2). unfold clean. rewrite L1, L2. reflexivity. }
+      { destruct (padding_wire [] s s1 Hi Hfl Hlb Hcl Ep) as (_ & L1 & L2). unfold clean. rewrite L1, L2. exact cleanv_00. }
       assert (Hok1 : all_ok2 (oracle s1)) by (rewrite Ho; exact Hok).
       assert (Htc1 : Forall tclean (oracle s1)) by (rewrite Ho; exact Htc).
       assert (HP1 : input_pos s1 + avail_in x = P) by (rewrite Hip; exact HP).
